@@ -189,11 +189,13 @@ def _parse_directive_options(
             options_block = content
             content = ""
         options_block = dedent(options_block)
-    elif content.lstrip().startswith(":"):
+    elif content.lstrip().startswith(":") and not content.lstrip().startswith(":::"):
         content_lines = content.splitlines()
         yaml_lines = []
         while content_lines:
-            if not content_lines[0].lstrip().startswith(":"):
+            first = content_lines[0].lstrip()
+            # a line starting with ``:::`` opens a nested colon fence, it is not an option
+            if not first.startswith(":") or first.startswith(":::"):
                 break
             yaml_lines.append(content_lines.pop(0).lstrip()[1:])
         options_block = "\n".join(yaml_lines)
